@@ -9,7 +9,7 @@ ROOT=/verif/.build
 LIB=$ROOT/lib/$FL
 DRV=$ROOT/drv/$FL
 CM=(-DMINIMAL=ON)
-CF=""; BT=Release; DRVF="-O1"; NODRV=0; DEFS=""
+CF=""; BT=Release; DRVF="-O1"; NODRV=0; DEFS=""; REALMASK=0
 IFS='+' read -ra TOK <<< "$FL"
 for t in "${TOK[@]}"; do
   case $t in
@@ -25,6 +25,7 @@ for t in "${TOK[@]}"; do
     ds[1234]) CM+=(-DDATA_SHARES=${t#ds});;
     ms[234]) CM+=(-DMAX_SHARES=${t#ms});;
     nodrv) NODRV=1;;
+    realmask) REALMASK=1;;
     *) echo "build.sh: unknown flavour token $t" >&2; exit 2;;
   esac
 done
@@ -38,9 +39,13 @@ H=/verif/harness
 # rebuild the driver when any harness source or the library is newer
 if [ ! -x $DRV/drv ] || [ -n "$(find $H $LIB/src/libascon_static.a -newer $DRV/drv -print -quit)" ]; then
   SHARES=$(grep -h "define ASCON_MASKED_.*SHARES\|define ASCON_MASKED_MAX" $LIB/version.h 2>/dev/null | tr '\n' ' ')
+  WRAP="-Wl,--wrap=ascon_trng_generate,--wrap=ascon_trng_generate_64,--wrap=ascon_trng_generate_32"
+  # realmask: the masking randomness comes from the library's own TRNG mixer (only the system
+  # entropy source stays substituted), so that the mixer's use of a permutation state is exercised
+  [ $REALMASK = 1 ] && WRAP="-Wl,--wrap=ascon_trng_generate"
   g++ -std=c++11 $DRVF $DEFS -Wall -Wno-unused-function -DHAVE_CONFIG_H -I$REPO/src -I$LIB -I$H \
       $(ls $H/drv_*.cpp $H/wrap_trng.cpp) $LIB/src/libascon_static.a \
-      -Wl,--wrap=ascon_trng_generate,--wrap=ascon_trng_generate_64,--wrap=ascon_trng_generate_32 \
+      $WRAP \
       -lpthread -o $DRV/drv.tmp 2>$DRV/build.log || { cat $DRV/build.log >&2; exit 4; }
   mv $DRV/drv.tmp $DRV/drv
 fi
